@@ -4,4 +4,6 @@ open Bp7.Extracted
 example : id_formats = some "{}-{}-{}|{}-{}" := rfl
 example : refbundle_formats = some "{}-{}-{}|{}-{}" := rfl
 example : flag_bundle_is_fragment = some 1 := by decide
+example : adm_refbundle_body = some "{ let mut id = format!( \"{}-{}-{}\", self.source_node, self.timestamp.dtntime(), self.timestamp.seqno(), ); if self.frag_len > 0 { id = format!(\"{}-{}\", id, self.frag_offset); } id }" := rfl
+example : bundle_id_body = some "{ let src = self.primary.source.to_string(); let mut id = format!( \"{}-{}-{}\", src, self.primary.creation_timestamp.dtntime(), self.primary.creation_timestamp.seqno(), ); if self.primary.has_fragmentation() { id = format!(\"{}-{}\", id, self.primary.fragmentation_offset); } id }" := rfl
 end Bp7.ExtractedOk.C13
